@@ -134,7 +134,7 @@ pub struct StatVals<T: Sc> {
     pub stats: Box<dyn Fn(T) -> Result<DVector<T>, String>>,
 }
 
-pub trait DynP<T: Sc> {
+pub trait DynP<T: Sc>: Send {
     fn set(&mut self, a: &DVector<T>);
     fn params(&self) -> DVector<T>;
     fn res(&self) -> Option<DVector<T>>;
